@@ -10,7 +10,7 @@ from .. import flow
 from ..cfg import cfg_of
 from ..model import AnchorError, Func, UnknownIdiom, short, walk_no_nested
 from .c09_helpers import (ASGI_REQ, UNK, WSGI_REQ, ReachingDefs, SiteEscape, branch_facts, ceval, concat_parts,
-                          effective_members, fact_value, node_of, polar_fact, raises_on, resolves_to, split_key, table_of)
+                          effective_members, fact_value, node_defs, node_of, polar_fact, raises_on, resolves_to, split_key, table_of)
 from .common import implied, walk_self
 
 PQS = 'falcon.util.uri.parse_query_string'
@@ -756,6 +756,392 @@ def r10_json_length_in_bytes(run):
                   runtime_witness="?p={\"k\": \"\u00e9\u00e9\"} with a JSON handler that reads content_length bytes: the value is cut mid-character -> 500/400 instead of the parsed object")
 
 
+# ---------------------------------------------------------------------------
+# R11 a typed getter never re-tokenises a stored parameter value
+# ---------------------------------------------------------------------------
+# Commas separate list elements "only as literal, never percent-encoded": that
+# can only be decided BEFORE decoding, i.e. in parse_query_string (R1).  What a
+# getter converts are therefore the elements of what the parser stored: a
+# split / partition / regex tokeniser applied to a stored value inside a
+# getter (or one level of same-class / private same-module helper) also cuts
+# at separators that arrived percent-encoded (data).  Decided per getter by a
+# def-use closure from the table read (or the delegate getter's result) to
+# every tokeniser, and an abstract evaluation of the guards over the default
+# values of the getter's own extra parameters: a tokeniser that can only be
+# reached under an explicitly passed non-default argument is a different
+# (opt-in) reading and outside the property.
+
+_TEMPLATE_PARAMS = ('required', 'store', 'default')   # must never change WHICH value is read: left unconstrained
+_TOKENISE_METHODS = ('split', 'rsplit', 'partition', 'rpartition', 'splitlines')
+_PATTERN_METHODS = ('split', 'findall', 'finditer')
+_TOKENISE_FUNCS = ('re.split', 're.findall', 're.finditer', 'shlex.split', 'csv.reader', 'builtins.str.split', 'builtins.str.rsplit',
+                   'builtins.str.partition', 'builtins.str.rpartition', 'builtins.str.splitlines')
+# str -> str methods: the result is still "the parameter value"
+_STR_PRESERVING = ('strip', 'lstrip', 'rstrip', 'lower', 'upper', 'casefold', 'title', 'capitalize', 'swapcase', 'replace',
+                   'expandtabs', 'removeprefix', 'removesuffix', 'translate', 'copy')
+_CONTAINER_FUNCS = ('str', 'list', 'tuple', 'iter', 'reversed', 'sorted', 'set', 'frozenset')
+
+
+class _Values:
+    """Stored-parameter-value closure of one function (flow-insensitive)."""
+
+    def __init__(self, p, f: Func, seeds=()):
+        self.p, self.f = p, f
+        self.names = set(seeds)
+        self.n_sources = 0
+        changed = True
+        while changed:
+            changed = False
+            for n in walk_no_nested(f.node):
+                tgts, val = [], None
+                if isinstance(n, ast.Assign):
+                    tgts, val = list(n.targets), n.value
+                elif isinstance(n, ast.AnnAssign) and n.value is not None:
+                    tgts, val = [n.target], n.value
+                elif isinstance(n, ast.AugAssign):
+                    tgts, val = [n.target], n.value
+                elif isinstance(n, ast.NamedExpr):
+                    tgts, val = [n.target], n.value
+                elif isinstance(n, (ast.For, ast.AsyncFor, ast.comprehension)):
+                    tgts, val = [n.target], n.iter
+                if val is None or not self.carries(val):
+                    continue
+                for t in tgts:
+                    for x in ast.walk(t):
+                        if isinstance(x, ast.Name) and isinstance(x.ctx, ast.Store) and x.id not in self.names:
+                            self.names.add(x.id)
+                            changed = True
+        self.n_sources = sum(1 for n in walk_no_nested(f.node) if self.is_source(n))
+
+    def is_source(self, e) -> bool:
+        f = self.f
+        if isinstance(e, ast.Subscript) and isinstance(e.ctx, ast.Load) and (table_of(f, e.value) or ('', ''))[0] == 'params':
+            return True
+        if isinstance(e, ast.Call) and isinstance(e.func, ast.Attribute):
+            if e.func.attr in ('get', 'pop') and (table_of(f, e.func.value) or ('', ''))[0] == 'params':
+                return True
+            recv = e.func.value
+            is_super = isinstance(recv, ast.Call) and isinstance(recv.func, ast.Name) and recv.func.id == 'super'
+            if ((isinstance(recv, ast.Name) and recv.id == 'self') or is_super) and e.func.attr.startswith('get_param'):
+                return True
+        return False
+
+    def helper(self, call: ast.Call):
+        """same-class method / private same-module function a value is handed to"""
+        t = self.p.callee(self.f, call)
+        if not isinstance(t, Func) or t.name.startswith('get_param'):
+            return None
+        if t.cls is not None and self.f.cls is not None and t.cls.qual in self.p.mro(self.f.cls.qual):
+            return t
+        if t.cls is None and t.module is self.f.module and t.name.startswith('_'):
+            return t
+        return None
+
+    def tokeniser(self, e) -> bool:
+        if not isinstance(e, ast.Call):
+            return False
+        args = list(e.args) + [k.value for k in e.keywords]
+        if isinstance(e.func, ast.Attribute):
+            if e.func.attr in _TOKENISE_METHODS and self.carries(e.func.value):
+                return True
+            if e.func.attr in _PATTERN_METHODS and any(self.carries(a) for a in args):
+                return True
+        t = self.p.resolve_callable(self.f, e.func) if isinstance(e.func, (ast.Name, ast.Attribute)) else None
+        return isinstance(t, str) and t in _TOKENISE_FUNCS and any(self.carries(a) for a in args)
+
+    def carries(self, e) -> bool:
+        if e is None:
+            return False
+        if self.is_source(e):
+            return True
+        if isinstance(e, ast.Name):
+            return e.id in self.names
+        if isinstance(e, (ast.Subscript, ast.Starred, ast.Await)):
+            return self.carries(e.value)
+        if isinstance(e, (ast.List, ast.Tuple, ast.Set)):
+            return any(self.carries(x) for x in e.elts)
+        if isinstance(e, ast.IfExp):
+            return self.carries(e.body) or self.carries(e.orelse)
+        if isinstance(e, ast.BoolOp):
+            return any(self.carries(x) for x in e.values)
+        if isinstance(e, ast.BinOp) and isinstance(e.op, ast.Add):
+            return self.carries(e.left) or self.carries(e.right)
+        if isinstance(e, ast.JoinedStr):
+            return any(isinstance(x, ast.FormattedValue) and self.carries(x.value) for x in e.values)
+        if isinstance(e, (ast.ListComp, ast.GeneratorExp, ast.SetComp)):
+            return self.carries(e.elt)
+        if isinstance(e, ast.NamedExpr):
+            return self.carries(e.value)
+        if isinstance(e, ast.Call):
+            args = list(e.args) + [k.value for k in e.keywords]
+            if self.tokeniser(e):
+                return True   # the pieces are pieces of the value
+            if isinstance(e.func, ast.Attribute):
+                if e.func.attr in _STR_PRESERVING and self.carries(e.func.value):
+                    return True
+                if e.func.attr == 'join' and any(self.carries(a) for a in args):
+                    return True
+            if isinstance(e.func, ast.Name) and e.func.id in _CONTAINER_FUNCS and e.func.id not in self.f.params() \
+                    and any(self.carries(a) for a in args):
+                return True
+            if any(self.carries(a) for a in args) and self.helper(e) is not None:
+                return True
+        return False
+
+
+_TYPE_NAMES = {'str': str, 'int': int, 'float': float, 'bool': bool, 'bytes': bytes, 'list': list, 'tuple': tuple, 'dict': dict}
+_BUILTIN_NAMES = frozenset(dir(__import__('builtins')))
+
+
+def _ev(e, env):
+    """three-valued evaluation of a guard over known constant values (UNK = not known)"""
+    if isinstance(e, ast.Constant):
+        return e.value
+    if isinstance(e, ast.Name):
+        return env[e.id] if e.id in env else UNK
+    if isinstance(e, (ast.Tuple, ast.List, ast.Set)):
+        vals = [_ev(x, env) for x in e.elts]
+        return UNK if any(v is UNK for v in vals) else tuple(vals)
+    if isinstance(e, ast.UnaryOp) and isinstance(e.op, ast.Not):
+        v = _ev(e.operand, env)
+        return UNK if v is UNK else (not v)
+    if isinstance(e, ast.BoolOp):
+        vals = [_ev(v, env) for v in e.values]
+        if isinstance(e.op, ast.And):
+            if any(v is not UNK and not v for v in vals):
+                return False
+        elif any(v is not UNK and v for v in vals):
+            return True
+        return UNK if any(v is UNK for v in vals) else vals[-1]
+    if isinstance(e, ast.IfExp):
+        t = _ev(e.test, env)
+        return UNK if t is UNK else _ev(e.body if t else e.orelse, env)
+    if isinstance(e, ast.Compare) and len(e.ops) == 1:
+        a, b = _ev(e.left, env), _ev(e.comparators[0], env)
+        if a is UNK or b is UNK:
+            return UNK
+        op = e.ops[0]
+        try:
+            if isinstance(op, ast.Is):
+                return a is b
+            if isinstance(op, ast.IsNot):
+                return a is not b
+            if isinstance(op, ast.Eq):
+                return a == b
+            if isinstance(op, ast.NotEq):
+                return a != b
+            if isinstance(op, ast.In):
+                return a in b
+            if isinstance(op, ast.NotIn):
+                return a not in b
+            if isinstance(op, ast.Lt):
+                return a < b
+            if isinstance(op, ast.LtE):
+                return a <= b
+            if isinstance(op, ast.Gt):
+                return a > b
+            if isinstance(op, ast.GtE):
+                return a >= b
+        except TypeError:
+            return UNK
+        return UNK
+    if isinstance(e, ast.Call) and isinstance(e.func, ast.Name) and not e.keywords and e.func.id not in env:
+        args = [_ev(a, env) for a in e.args]
+        if e.func.id == 'isinstance' and len(e.args) == 2 and args[0] is not UNK:
+            ts = e.args[1].elts if isinstance(e.args[1], ast.Tuple) else [e.args[1]]
+            if all(isinstance(t, ast.Name) and t.id in _TYPE_NAMES for t in ts):
+                return isinstance(args[0], tuple(_TYPE_NAMES[t.id] for t in ts))
+            return UNK
+        if e.func.id in ('len', 'bool') and len(args) == 1 and args[0] is not UNK:
+            try:
+                return len(args[0]) if e.func.id == 'len' else bool(args[0])
+            except TypeError:
+                return UNK
+    return UNK
+
+
+def _unreadable_atom(test, state) -> Optional[ast.AST]:
+    """a boolean atom of `test` that mentions only names with known values and still does not evaluate"""
+    todo = [test]
+    while todo:
+        e = todo.pop()
+        if isinstance(e, ast.BoolOp):
+            todo.extend(e.values)
+        elif isinstance(e, ast.UnaryOp) and isinstance(e.op, ast.Not):
+            todo.append(e.operand)
+        else:
+            names = {x.id for x in walk_self(e) if isinstance(x, ast.Name) and (x.id in state or x.id not in _BUILTIN_NAMES)}
+            if names and names <= set(state):
+                ns = sorted(names)
+                for combo in itertools.product(*[sorted(state[n], key=repr) for n in ns]):
+                    if _ev(e, dict(zip(ns, combo))) is UNK:
+                        return e
+    return None
+
+
+def _default_reach(cfg, f: Func) -> Dict[int, Dict[str, frozenset]]:
+    """Nodes reachable when every extra parameter of the getter keeps its
+    declared constant default (template parameters and parameters without a
+    constant default are unconstrained): node id -> possible values."""
+    a = f.node.args
+    pos = a.posonlyargs + a.args
+    pairs = list(zip(pos[len(pos) - len(a.defaults):], a.defaults)) + [(x, d) for x, d in zip(a.kwonlyargs, a.kw_defaults) if d is not None]
+    init: Dict[str, frozenset] = {}
+    for arg, d in pairs:
+        if arg.arg in _TEMPLATE_PARAMS or not isinstance(d, ast.Constant):
+            continue
+        try:
+            hash(d.value)
+        except TypeError:
+            continue
+        init[arg.arg] = frozenset([d.value])
+    # state: name -> possible constant values; a name that is absent is unconstrained
+    def refine(state, test, truth):
+        names = sorted({x.id for x in walk_self(test) if isinstance(x, ast.Name) and x.id in state})
+        if not names:
+            return state
+        keep = []
+        for combo in itertools.product(*[sorted(state[n], key=repr) for n in names]):
+            r = _ev(test, dict(zip(names, combo)))
+            if r is UNK or bool(r) == truth:
+                keep.append(combo)
+        if not keep:
+            return None
+        out = dict(state)
+        for i, n in enumerate(names):
+            out[n] = frozenset(c[i] for c in keep)
+        return out
+
+    def transfer(n, state, label):
+        if label == 'exc':
+            return state
+        out = state
+        if not (n.kind == 'iter' and label != 'next'):
+            for d in node_defs(n):
+                out = dict(out)
+                out.pop(d.name, None)
+                if d.how == 'assign' and isinstance(d.value, ast.Constant):
+                    try:
+                        hash(d.value.value)
+                        out[d.name] = frozenset([d.value.value])
+                    except TypeError:
+                        pass
+                elif d.how == 'assign' and isinstance(d.value, ast.Name) and d.value.id in state:
+                    out[d.name] = state[d.value.id]
+            for x in n.walk():   # walrus / comprehension targets: unconstrained
+                if isinstance(x, ast.NamedExpr) and isinstance(x.target, ast.Name) and x.target.id in out:
+                    out = dict(out)
+                    out.pop(x.target.id, None)
+        if n.kind == 'test' and label in ('T', 'F'):
+            return refine(out, n.ast, label == 'T')
+        return out
+
+    IN: Dict[int, Dict[str, frozenset]] = {cfg.entry: init}
+    work = [cfg.entry]
+    while work:
+        x = work.pop()
+        for (y, l) in cfg.succ[x]:
+            out = transfer(cfg.node(x), IN[x], l)
+            if out is None:
+                continue
+            cur = IN.get(y)
+            new = out if cur is None else {k: cur[k] | out[k] for k in cur if k in out}
+            if new != cur:
+                IN[y] = new
+                work.append(y)
+    return IN
+
+
+def _retokenise_sites(p, f: Func, vals: '_Values', depth: int, seen):
+    """[(func, call, reachable-with-defaults, state text)] for f and the helpers it hands values to."""
+    cfg = cfg_of(f, p)
+    reach = _default_reach(cfg, f) if depth == 0 else None
+    out = []
+    for n in walk_no_nested(f.node):
+        if not isinstance(n, ast.Call):
+            continue
+        nid = None
+
+        def live():
+            nonlocal nid
+            if reach is None:
+                return True, ''
+            nid = node_of(cfg, n)
+            st = reach.get(nid)
+            if st is None:
+                return False, ''
+            for t in cfg.live_nodes():
+                if t.kind == 'test' and t.id in reach and nid in flow.reachable(cfg, [t.id]):
+                    atom = _unreadable_atom(t.ast, reach[t.id])
+                    if atom is not None:
+                        raise UnknownIdiom('%s: guard %s over defaulted parameters does not evaluate (decides whether %s runs with the default arguments)'
+                                           % (f.qual, short(atom, 60), short(n, 40)))
+            return True, ', '.join('%s in {%s}' % (k, ', '.join(sorted(repr(v) for v in vs))) for k, vs in sorted(st.items()))
+
+        if vals.tokeniser(n):
+            ok, st = live()
+            out.append((f, n, ok, st, []))
+            continue
+        args = list(n.args) + [k.value for k in n.keywords]
+        if any(vals.carries(a) for a in args):
+            h = vals.helper(n)
+            if h is None:
+                continue
+            if depth >= 1 or h.qual in seen:
+                # values handed on beyond one level of helper: not followed
+                raise UnknownIdiom('%s: a stored parameter value is handed through more than one level of helper (%s)' % (f.qual, short(n, 60)))
+            hp = h.params()
+            bound = hp[1:] if h.cls is not None and hp and hp[0] in ('self', 'cls') else hp
+            seeds = set()
+            for i, a_ in enumerate(n.args):
+                if vals.carries(a_):
+                    if isinstance(a_, ast.Starred) or i >= len(bound):
+                        raise UnknownIdiom('%s: cannot bind the arguments of %s' % (f.qual, short(n, 60)))
+                    seeds.add(bound[i])
+            for k in n.keywords:
+                if vals.carries(k.value):
+                    if k.arg is None or k.arg not in bound:
+                        raise UnknownIdiom('%s: cannot bind the arguments of %s' % (f.qual, short(n, 60)))
+                    seeds.add(k.arg)
+            ok, st = live()
+            hv = _Values(p, h, seeds)
+            for (hf, hc, _hok, _hst, via) in _retokenise_sites(p, h, hv, depth + 1, seen | {f.qual, h.qual}):
+                out.append((hf, hc, ok, st, ['%s  %s' % (f.loc(n), short(n, 80))] + via))
+    return out
+
+
+def r11_no_retokenising(run):
+    p = run.project
+    funcs = []
+    for cq in (WSGI_REQ, ASGI_REQ):
+        mem = effective_members(p, cq)
+        for n, m in sorted(mem.items()):
+            if (n.startswith('get_param_as_') or n == 'get_param') and m.func is not None and m.kind == 'method' and m.func not in funcs:
+                funcs.append(m.func)
+    if len(funcs) < 9:
+        raise AnchorError('expected get_param and at least 8 get_param_as_* getters, found %d' % len(funcs))
+    for f in funcs:
+        run.use(f)
+        vals = _Values(p, f)
+        if not vals.n_sources:
+            raise UnknownIdiom('%s: neither reads the parameter table nor delegates to another getter' % f.qual)
+        sites = _retokenise_sites(p, f, vals, 0, frozenset())
+        bad = [s for s in sites if s[2]]
+        for (sf, call, _ok, st, via) in bad:
+            run.fail('%s: the stored parameter value is tokenised again inside the getter on a path taken with the default arguments '
+                     '(separators that arrived percent-encoded are data; only the parser, before decoding, may split)' % f.name,
+                     sf, call, where=sf.loc(call),
+                     witness=via + ['%s  %s' % (sf.loc(call), short(call, 80))] + (['reachable with ' + st] if st else []),
+                     runtime_witness="auto_parse_qs_csv=True, ?x=a%2Cb,c : req.params['x'] == ['a,b', 'c'] but the getter yields ['a', 'b', 'c']")
+        for (sf, call, _ok, _st, _via) in [s for s in sites if not s[2]]:
+            run.ok('%s: a tokeniser reachable only under an explicitly passed non-default argument (opt-in reading, outside the property)' % f.name,
+                   sf.loc(call), call)
+        if not bad:
+            run.ok('%s: what is converted are the elements the parser stored (no split/partition/regex tokeniser on a stored value '
+                   'with default arguments; %d value-carrying locals followed)' % (f.name, len(vals.names)), f.loc(), f.qual)
+    run.extra['c08_r11_getters'] = [f.qual for f in funcs]
+
+
 def check(run):
     run.assume('the pure-Python parse_query_string/decode are decided; the Cython twin (falcon/cyutil/uri.pyx) replaces them when importable and is not analysed')
     run.assume('E5 assumptions: str/bytes methods and in-range slices are total; UTF-8 encoding of text without lone surrogates is total; '
@@ -777,3 +1163,4 @@ def check(run):
     run.rule('R10', r10_json_length_in_bytes, 'get_param_as_json hands the JSON handler the byte length of the stream it builds', floor=1)
     run.rule('R6', _c10._safe(_c10.r2_escape_shape), '_HEX_TO_BYTE covers every hex pair of both cases (shared with C10 R2)', floor=10)
     run.rule('R7', _c10._safe(_c10.r4_decoder_paths), 'decoder paths share one skeleton; plus handling (shared with C10 R4)', floor=20)
+    run.rule('R11', r11_no_retokenising, 'a typed getter converts the elements the parser stored: no second tokenising of a stored value under default arguments', floor=9)
